@@ -208,6 +208,8 @@ theorem dj_params_visit (e : Expr) : DjP e := by
     repeat' split at h
     · cases h
     · cases h
+    · cases h
+    · cases h
     · simpa [lits] using dj_params_func _ args ih t k h
   · intro o op l t k h
     rw [djVisit] at h; cases h
